@@ -125,11 +125,12 @@ def run(rep, tier, seed):
             if rr["status"] in ("panic", "abort", "hang"):
                 bad = (f"determinism:{kind}:crash", {"status": rr["status"]})
                 break
-            events.append(dict(frontc.table_event(key, rr, with_err=True), where=f"process-{pidx}"))
+            events.append(dict(frontc.table_event(key, rr, with_err=True, mask_local_id=(kind == "local-random")), where=f"process-{pidx}"))
             # repetitions inside that process (sequential and in threads) are compared by the runner itself
             if rr.get("rep_differing"):
                 d = rr["rep_differing"][0]
-                events.append(dict(frontc.table_event(key, {"status": d["status"], "out": d.get("out"), "err": d.get("err")}, with_err=True),
+                events.append(dict(frontc.table_event(key, {"status": d["status"], "out": d.get("out"), "err": d.get("err")}, with_err=True,
+                                                      mask_local_id=(kind == "local-random")),
                                    where=f"process-{pidx}-thread"))
         if bad:
             rep.violation(bad[0], {"kind": kind, "xml": vlib.trunc(xml, 1500), "cfg": cfg, **bad[1]})
